@@ -1122,6 +1122,17 @@ func (c *fnCtx) bitUF(st *State, name string, x, y SymVal, t types.Type) SymVal 
 			facts = append(facts, app("=", app(">=", r, "0"), app("=", app(">=", x.S, "0"), app(">=", y.S, "0"))))
 		}
 	}
+	if signed {
+		// sign-extension closure: operands that fit k signed bits give a result that fits k signed bits
+		for _, k := range []int{8, 16, 32} {
+			if k >= bits {
+				continue
+			}
+			lo, hi := "(- "+pow2(k-1).String()+")", pow2(k-1).String()
+			in := func(v string) string { return sAnd(app("<=", lo, v), app("<", v, hi)) }
+			facts = append(facts, sImp(sAnd(in(x.S), in(y.S)), in(r)))
+		}
+	}
 	c.assume(st, sAnd(facts...))
 	return mkInt(r, t)
 }
